@@ -62,6 +62,8 @@ Inductive mexpr :=
 | EArrUninit (n : mexpr)               (* [MaybeUninit::uninit(); N] *)
 | ELen (e : mexpr)                     (* the length of a fixed array (a const generic N) *)
 | EIndex (a i : mexpr)                 (* a[i]; out of range panics *)
+| EAt (a i : mexpr)                    (* v[i] on a Vec / VecDeque (same meaning; the bounds check and the lookup are nodes of the
+                                          decision tree, so a symbolic index does not block the evaluation) *)
 | EWriteSlot (l : lval) (i v : mexpr)  (* l[i].write(v) *)
 | EAssumeInit (e : mexpr)              (* .assume_init(): undefined behaviour on an unwritten slot *)
 | EUs (o : Z) (a b : mexpr)            (* usize arithmetic on counters: 1 +, 2 - (underflow panics) *)
@@ -86,6 +88,10 @@ Inductive mexpr :=
 | EMatch (e : mexpr) (arms : list (pat * mexpr))
 | EFor (x : string) (coll body : mexpr)
 | EForMut (x : string) (l : lval) (body : mexpr)   (* for x in &self.<array of structs>: the body may assign to fields of x *)
+| EPush (l : lval) (front : bool) (v : mexpr)       (* l.push_back(v) / l.push(v) (front = false), l.push_front(v) on a Vec / VecDeque *)
+| EPop (l : lval) (front : bool)                    (* l.pop_front() / l.pop_back(): the removed element as an Option *)
+| EWhile (fuel cond body : mexpr)                   (* while cond { body }; fuel: an upper bound of the number of condition
+                                                       evaluations (running out of it is an ill-typed outcome, never a value) *)
 | EReturn (e : mexpr)
 | ECatch (e : mexpr).               (* boundary of an inlined non-mutating call: `return` stops here *)
 
@@ -384,6 +390,16 @@ Fixpoint for_mut (body : env -> tree outcome) (x : string) (l : lval) (done rest
                      end) (body ((x, it) :: en))
   end.
 
+Fixpoint while_loop (cnd body : env -> tree outcome) (fuel : nat) (en : env) {struct fuel} : tree outcome :=
+  match fuel with
+  | O => Leaf OType
+  | S k => do (v, en1) <- cnd en;
+           match v with
+           | MV (VB t) => TIf t (do (w, en2) <- body en1; while_loop cnd body k en2) (Leaf (ONorm MTup0 en1))
+           | _ => Leaf OType
+           end
+  end.
+
 (* `for x in lo..hi { body }` with n = hi - lo iterations *)
 Fixpoint for_range (body : env -> tree outcome) (x : string) (lo : Z) (n : nat) (en : env) {struct n} : tree outcome :=
   match n with
@@ -443,6 +459,13 @@ Fixpoint eval (e : mexpr) (en : env) {struct e} : tree outcome :=
       | MArr l, MV (VI z) =>
           if negb (0 <=? z) then Leaf OPanic
           else match nth_error l (Z.to_nat z) with Some x => ret1 x en2 | None => Leaf OPanic end
+      | _, _ => Leaf OType
+      end
+  | EAt a i =>
+      do (v, en1) <- eval a en;
+      do (w, en2) <- eval i en1;
+      match v, w with
+      | MArr l, MV (VI z) => TIf (0 <=? z) (TAsk (nth_error l (Z.to_nat z)) (fun x => ret1 x en2) (Leaf OPanic)) (Leaf OPanic)
       | _, _ => Leaf OType
       end
   | EWriteSlot l i a =>
@@ -590,6 +613,30 @@ Fixpoint eval (e : mexpr) (en : env) {struct e} : tree outcome :=
   | EForMut x l body =>
       match lval_get l en with
       | Some (MArr items) => for_mut (eval body) x l [] items en
+      | _ => Leaf OType
+      end
+  | EPush l front a =>
+      do (v, en1) <- eval a en;
+      match lval_get l en1 with
+      | Some (MArr items) =>
+          match lval_set l (MArr (if front then v :: items else items ++ [v])) en1 with
+          | Some en2 => ret1 MTup0 en2 | None => Leaf OType end
+      | _ => Leaf OType
+      end
+  | EPop l front =>
+      match lval_get l en with
+      | Some (MArr items) =>
+          match (if front then match items with [] => None | x :: r => Some (x, r) end
+                 else match rev items with [] => None | x :: r => Some (x, rev r) end) with
+          | Some (x, r) => match lval_set l (MArr r) en with Some en2 => ret1 (MSome x) en2 | None => Leaf OType end
+          | None => ret1 MNone en
+          end
+      | _ => Leaf OType
+      end
+  | EWhile fuel cnd body =>
+      do (f, en1) <- eval fuel en;
+      match f with
+      | MV (VI n) => while_loop (eval cnd) (eval body) (Z.to_nat n) en1
       | _ => Leaf OType
       end
   | EReturn a => do (v, en1) <- eval a en; Leaf (ORet v en1)
